@@ -401,6 +401,12 @@ class FTPProcessorSession(BaseProcessorSession):
         self._item_session.update_record_value(status_code=response.reply.code)
         is_listing = isinstance(response, ListingResponse)
 
+        # The entries of a listing are stored together with the status of
+        # the listing: setting the status first would lose them when the
+        # process is killed in between.
+        if is_listing:
+            self._add_listing_links(response)
+
         if is_listing and not self._processor.fetch_params.remove_listing or \
                 not is_listing:
             filename = self._file_writer_session.save_document(response)
@@ -408,9 +414,6 @@ class FTPProcessorSession(BaseProcessorSession):
         else:
             self._file_writer_session.discard_document(response)
             action = self._result_rule.handle_no_document(self._item_session)
-
-        if isinstance(response, ListingResponse):
-            self._add_listing_links(response)
 
         return action
 
